@@ -64,9 +64,12 @@ func enumSeqDistance(thorough bool) map[string]any {
 	}
 	base := cfg{fragOn: true}
 	var cases, orders, skipped int64
-	starts := []uint64{0, 1000}
+	// first sequence numbers: besides small values, numbers just below 2^64 so that the fragments of
+	// one message (and the messages of one interleaving) straddle the wrap-around of the 64-bit
+	// Sequence field - NFD peers start counting at 2^64-2
+	starts := []uint64{0, 1000, 1<<64 - 2}
 	if thorough {
-		starts = []uint64{0, 1, 63, 1000, 1<<32 - 2}
+		starts = []uint64{0, 1, 63, 1000, 1<<32 - 2, 1<<64 - 65, 1<<64 - 3, 1<<64 - 2, 1<<64 - 1}
 	}
 	// run one arrival order over the messages; report under a key that names the family only
 	run := func(family string, d string, msgs []*sdMsg, order []sdRef) {
